@@ -138,6 +138,51 @@ theorem buildString_succ {V} (env : Env V) (d : Nat) (t : Str) (an : AN) :
   unfold buildString formatPieces
   cases renderPieces (buildString env d) env (parse t).1 an <;> rfl
 
+/-- the field evaluation interpreted from the REGENERATED statement list (`Gen.fieldEval`) is: look the
+object up (loguru's numbering), convert, expand the spec (sharing the counter), `format_field`, feed –
+a reordered, dropped or rewired statement in /repo breaks this lemma -/
+theorem evalField_eq {V} (self : Str → Option Nat → Except Err (Str × Option Nat)) (feedV : Str → Except Err Str)
+    (env : Env V) (f : Field) (auto : Option Nat) :
+    evalField self feedV env f auto =
+      match lgGetField env f.name auto with
+      | .error e => .error e
+      | .ok (v, auto1) =>
+        match doConv env f.conv v with
+        | .error e => .error e
+        | .ok v =>
+          match self f.spec auto1 with
+          | .error e => .error e
+          | .ok (spec, auto2) =>
+            match env.format v spec with
+            | .error e => .error e
+            | .ok s =>
+              match feedV s with
+              | .error e => .error e
+              | .ok s => .ok (s, auto2) := by
+  unfold evalField
+  simp only [Gen.fieldEval, fieldRun, fieldStep]
+  cases lgGetField env f.name auto with
+  | error e => rfl
+  | ok w =>
+    obtain ⟨v, a1⟩ := w
+    simp only
+    cases doConv env f.conv v with
+    | error e => rfl
+    | ok v2 =>
+      simp only
+      cases self f.spec a1 with
+      | error e => rfl
+      | ok w2 =>
+        obtain ⟨sp, a2⟩ := w2
+        simp only
+        cases env.format v2 sp with
+        | error e => rfl
+        | ok x =>
+          simp only
+          cases feedV x with
+          | error e => rfl
+          | ok y => rfl
+
 /-- the two piece loops agree as long as the spec expansions they call agree, the literal feed leaves
 `st lit` of every literal and the value feed is verbatim -/
 theorem pieces_rel {V} (env : Env V) (hA : env.hasArgs = true)
@@ -173,6 +218,7 @@ theorem pieces_rel {V} (env : Env V) (hA : env.hasArgs = true)
         rw [e]; simp [Rel, r']
     | some f =>
       simp only
+      rw [evalField_eq]
       have h1 := head_rel env hA f.name an au r
       cases hg : getFieldObject env an f.name with
       | error e => rw [hg] at h1; rw [h1.error_left]; simp [Rel]
